@@ -181,7 +181,7 @@ theorem aw_remaining : AllocW 0 A B remaining := by
 macro "aw0" : tactic => `(tactic| repeat (first
   | exact aw_pure _
   | exact aw_fail _
-  | exact aw_noteDepth _ (by unfold DEPTH_BOUND customDepthBound MAX_TYPE_NESTING_DEPTH; omega)
+  | exact aw_noteDepth _ (by unfold DEPTH_BOUND customDepthBound TOP_FUEL MAX_TYPE_NESTING_DEPTH; omega)
   | exact aw_zero (aw_readU8 (by assumption))
   | exact aw_zero (aw_readShort (by assumption))
   | exact aw_zero (aw_readInt (by assumption))
@@ -204,7 +204,7 @@ theorem aw_deserType (hA : 1 ≤ A) : ∀ fuel, AllocW 2 A B (deserType fuel)
   | fuel + 1 => by
     have ih : AllocW 0 A B (deserType fuel) := aw_zero (aw_deserType hA fuel)
     unfold deserType
-    refine aw_bind0 hA (aw_noteDepth _ (by unfold DEPTH_BOUND; omega)) (fun _ => aw_bindL hA (aw_tag _ (aw_readShort hA)) (fun id => ?_))
+    refine aw_bind0 hA (aw_noteDepth _ (by unfold DEPTH_BOUND TOP_FUEL MAX_TYPE_NESTING_DEPTH; omega)) (fun _ => aw_bindL hA (aw_tag _ (aw_readShort hA)) (fun id => ?_))
     split
     · refine aw_bind0 hA (aw_tag _ (aw_zero (aw_readString hA))) (fun str => aw_bind0 hA aw_getUni (fun uni => ?_))
       have hnp := customParse_np uni str
